@@ -57,7 +57,7 @@ def record(co, ident):
             "labels": list(dis.findlabels(co.co_code)), "exc": exc_targets(co), "lines": lines,
             "names": [sname(x) for x in co.co_names], "varnames": [sname(x) for x in co.co_varnames],
             "cellvars": [sname(x) for x in co.co_cellvars], "freevars": [sname(x) for x in co.co_freevars],
-            "consts": [cdigest(c) for c in co.co_consts], "cmpn": len(cmp_op)}
+            "consts": [cdigest(c) for c in co.co_consts], "cmpn": len(cmp_op), "shift": 0}
 
 
 def main():
